@@ -125,9 +125,31 @@ let run_case line =
          (v, res, args)
        | [] -> raise (Bad "short proto/func"))
     | _ -> raise (Bad "short proto/func") in
-  let exec c = match step !st c with
+  (* after the first error the model result is fixed; later steps still run (silently) so that the
+     documentation verdict can be computed over all the instructions of the case *)
+  let doc_insns : insn list ref = ref [] in
+  let doc_na = ref false in
+  let doc_verdict = ref "na" in
+  let exec c =
+    (match c with
+     | CInsn (code, ops) ->
+       (match opcode_of_num code with
+        | Some oc -> doc_insns := { i_code = oc; i_ops = ops } :: !doc_insns
+        | None -> doc_na := true)
+     | CNew _ | CUnspecProto _ -> doc_na := true
+     | CFinish ->
+       (match !st.s_func with
+        | Some fc when not !doc_na ->
+          let insns = List.rev !doc_insns in
+          if List.for_all insn_in_domain insns && res_types_ok fc then
+            doc_verdict := (if doc_func_ok fc insns then "ok" else "rej")
+        | _ -> ())
+     | _ -> ());
+    match step !st c with
     | Ok (s', r) -> st := s'; Ok r
-    | Err e -> Err e in
+    | Err e ->
+      (match c with CInsn _ | CFinish -> () | _ -> doc_na := true);
+      Err e in
   let do_step s : (n option, mir_error) result option =
     match words s with
     | [] -> None
@@ -181,14 +203,19 @@ let run_case line =
       (match exec CFinish with Ok _ -> Some (Ok None) | Err e -> Some (Error e))
     | _ -> raise (Bad "unknown step") in
   let steps = split_steps line in
+  let result = ref None in
   let rec go k = function
-    | [] -> print_endline "ok"
+    | [] -> ()
     | s :: rest ->
       (match (try `R (do_step s) with Bad w -> `B w | Failure w -> `B w) with
-       | `B w -> Printf.printf "bad-case %s (step %d)\n" w k
-       | `R (Some (Error e)) -> Printf.printf "err %s %d\n" (err_name e) k
+       | `B w -> if !result = None then result := Some (Printf.sprintf "bad-case %s (step %d)" w k); doc_na := true
+       | `R (Some (Error e)) ->
+         if !result = None then result := Some (Printf.sprintf "err %s %d" (err_name e) k);
+         go (k + 1) rest
        | `R _ -> go (k + 1) rest) in
-  go 0 steps
+  go 0 steps;
+  let r = match !result with Some r -> r | None -> "ok" in
+  Printf.printf "%s | doc=%s\n" r (if !doc_na then "na" else !doc_verdict)
 
 let () =
   try
